@@ -12,7 +12,7 @@
       maximum) and passes the monitor's [recovered_is] / [kv_inv]. *)
 From WK Require Import Base.Base Model.KV Gen.Consts_C07 Model.MsgStore Model.MsgStore_C07 Model.MsgStore_C09
      Proof.KV Proof.MsgStore_base Proof.MsgStore_rel Proof.MsgStore_reads Proof.MsgStore_frame
-     Proof.MsgStore_mut Proof.MsgStore_step Proof.MsgStore_ops Proof.MsgStore_C07.
+     Proof.MsgStore_mut Proof.MsgStore_step Proof.MsgStore_ops Proof.MsgStore_C07 Proof.MsgStore_discard.
 From Coq Require Import Sorting.Permutation Sorting.Sorted.
 
 Section OneBatch.
@@ -101,10 +101,13 @@ Section OneBatch.
     eapply quiet_trans; [apply set_leo_quiet|apply IH].
   Qed.
 
+  (* every op but the paged DiscardForRestore *)
+  Definition not_paged (o : op) : Prop := match o with ODiscard _ => False | _ => True end.
+
   (* one API call = at most one committed batch *)
-  Theorem step_one_batch st o : at_most_one st (fst (step st o)).
+  Theorem step_one_batch st o : not_paged o -> at_most_one st (fst (step st o)).
   Proof.
-    destruct o; cbn [MsgStore.step].
+    intro Hnp. destruct o; cbn [MsgStore.step]; try contradiction.
     - (* Append *)
       unfold Append. pose proof (walk_quiet st c recs mode base) as H.
       destruct (walkAppendRowsLocked F f_may f_add st c recs mode base) as [st1 [[|r rows]|e]]; cbn [fst] in *;
@@ -178,9 +181,9 @@ Section OneBatch.
     pose proof (IH st1) as H2. destruct (dump_chans F st1 cs) as [st2 ds]. cbn [fst] in *. eapply quiet_trans; eassumption.
   Qed.
 
-  Theorem step_dump_one_batch compact st o : at_most_one st (fst (fst (step_dump compact st o))).
+  Theorem step_dump_one_batch compact st o : not_paged o -> at_most_one st (fst (fst (step_dump compact st o))).
   Proof.
-    unfold MsgStore.step_dump. pose proof (step_one_batch st o) as H. destruct (step st o) as [st1 x]. cbn [fst] in H.
+    intro Hnp. unfold MsgStore.step_dump. pose proof (step_one_batch st o Hnp) as H. destruct (step st o) as [st1 x]. cbn [fst] in H.
     assert (Hq : quiet st1 (fst (match o with
               | OReopen => dump_chans F st1 all_chans
               | OCBatch _ => if compact then (st1, []) else dump_chans F st1 all_chans
@@ -216,6 +219,39 @@ Section OneBatch.
     rewrite H1, H2, H. unfold kapply, run_batches. rewrite fold_left_app. reflexivity.
   Qed.
 
+  (* EVERY call (the paged one included) changes the store only through the list
+     of batches it commits, in order *)
+  Definition many (st st' : mstate) : Prop :=
+    exists bs, st_log st' = st_log st ++ bs /\ st_kv st' = run_batches key_eqb (st_kv st) bs.
+
+  Theorem step_batches st o : many st (fst (step st o)).
+  Proof.
+    destruct o;
+      try (match goal with |- many st (fst (step st ?o)) =>
+             destruct (step_one_batch st o I) as [[H1 H2]|[b [H1 H2]]];
+             [exists []; rewrite app_nil_r; split; assumption|exists [b]; split; [exact H2|exact H1]] end).
+    cbn [MsgStore.step]. pose proof (discard_log F st c) as H. destruct (DiscardForRestore F st c) as [st' r]. exact H.
+  Qed.
+
+  Lemma kv_is_log_many st st' : many st st' -> kv_is_log st -> kv_is_log st'.
+  Proof.
+    unfold kv_is_log. intros [bs [H1 H2]] H. rewrite H1, H2, H. symmetry. apply run_batches_app.
+  Qed.
+
+  (* a stop while ANY call is in flight recovers the store after some prefix of the
+     batches of that call (for a one-batch call: before or after it) *)
+  Theorem crash_in_flight_many st o s :
+    kv_is_log st ->
+    crash_states key_eqb [] (st_log (fst (step st o))) (length (st_log st)) s ->
+    exists bs k, st_log (fst (step st o)) = st_log st ++ bs /\ (k <= length bs)%nat
+                 /\ s = run_batches key_eqb (st_kv st) (firstn k bs).
+  Proof.
+    intros Hk [k [Hk1 ->]]. destruct (step_batches st o) as [bs [H1 H2]]. exists bs, (k - length (st_log st))%nat.
+    split; [exact H1|]. rewrite H1, app_length in Hk1. split; [lia|].
+    unfold crash_state. rewrite H1, firstn_app, firstn_all2 by lia.
+    unfold kbatch. rewrite run_batches_app. rewrite <- Hk. reflexivity.
+  Qed.
+
   (* ---- crash states ------------------------------------------------------------------------------------------------------- *)
 
   (* Pebble's contract (trusted, Model/KV.v): after a stop the store recovers to
@@ -226,12 +262,13 @@ Section OneBatch.
      recovers the store before the call or the store after it: the call is
      entirely present or entirely absent *)
   Theorem crash_in_flight st o s :
+    not_paged o ->
     kv_is_log st ->
     crash_states key_eqb [] (st_log (fst (step st o))) (length (st_log st)) s ->
     s = st_kv st \/ s = st_kv (fst (step st o)).
   Proof.
-    intros Hk [k [Hk1 ->]]. unfold crash_state.
-    destruct (step_one_batch st o) as [[H1 H2]|[b [H1 H2]]]; rewrite H2 in Hk1 |- *.
+    intros Hnp Hk [k [Hk1 ->]]. unfold crash_state.
+    destruct (step_one_batch st o Hnp) as [[H1 H2]|[b [H1 H2]]]; rewrite H2 in Hk1 |- *.
     - left. assert (E : k = length (st_log st)) by (destruct Hk1 as [A B]; apply Nat.le_antisymm; assumption). rewrite E, firstn_all. symmetry. exact Hk.
     - rewrite app_length in Hk1. cbn [length] in Hk1.
       assert (Hc : k = length (st_log st) \/ k = (length (st_log st) + 1)%nat).
@@ -250,7 +287,7 @@ Section OneBatch.
     s = st_kv (fst (step st o)).
   Proof.
     intros Hk [k [Hk1 ->]]. assert (k = length (st_log (fst (step st o)))) by (destruct Hk1 as [A B]; apply Nat.le_antisymm; assumption). subst.
-    unfold crash_state. rewrite firstn_all. symmetry. apply (kv_is_log_step st); [apply step_one_batch|exact Hk].
+    unfold crash_state. rewrite firstn_all. symmetry. apply (kv_is_log_many st); [apply step_batches|exact Hk].
   Qed.
 
   (* whatever the recovered store is, reopening on it gives a state related to the
@@ -402,11 +439,12 @@ Proof.
   intros Hok Hcr. unfold C09_monitor. cbn [c9_hist c_steps c9_crashes]. unfold xrun, xinit in *.
   destruct (run_states ops (st_init xfilter []) as_init (R_init xfilter []) Hok) as [states [E1 [E2 E3]]].
   rewrite E1.
-  assert (Hall : forallb (crash_ok states) crashes = true).
+  assert (Hall : forallb (crash_ok states (entries ops (snd (run xfilter [] x_may x_add true (st_init xfilter []) ops)))) crashes = true).
   { apply forallb_forall. intros [labels leos ents] Hin. eapply Forall_forall in Hcr; [|exact Hin].
     destruct Hcr as [j [kv [Hj [Hkv [Hents [Hleos Hlab]]]]]]. cbn [crash_ok]. rewrite Hents.
     apply forallb_forall. intros [[lo hi] pct] Hl. eapply Forall_forall in Hlab; [|exact Hl]. cbn beta iota in Hlab.
-    unfold label_ok. assert (Ele : (lo <=? hi) = true) by (apply N.leb_le; lia). rewrite Ele. cbn [andb].
+    unfold label_ok2, label_ok. apply orb_true_iff. left.
+    assert (Ele : (lo <=? hi) = true) by (apply N.leb_le; lia). rewrite Ele. cbn [andb].
     apply (exists_between_true _ j); [rewrite N2Nat.inj_sub; lia|].
     rewrite E2. assert (Ej : (j <? length (run_kvs (st_init xfilter []) ops))%nat = true) by (apply Nat.ltb_lt; exact Hj).
     rewrite Ej. cbn [andb].
@@ -418,8 +456,37 @@ Qed.
 Lemma kv_is_log_preserved (F : Type) (f_empty : F) (f_may : F -> bytes * bytes -> bool) (f_add : F -> bytes * bytes -> F)
       (st : mstate F) (o : op) :
   kv_is_log F st -> kv_is_log F (fst (step F f_empty f_may f_add st o)).
-Proof. intro H. exact (kv_is_log_step F st _ (step_one_batch F f_empty f_may f_add st o) H). Qed.
+Proof. intro H. exact (kv_is_log_many F st _ (step_batches F f_empty f_may f_add st o) H). Qed.
 
 Lemma related_passes_monitor (kv : kvs) (s : aspec) :
   Rkv kv s -> recovered_is kv (leos_of kv) s = true /\ kv_inv kv (leos_of kv) s = true.
 Proof. intro H. split; [exact (recovered_is_ok kv s H)|exact (kv_inv_ok kv s H)]. Qed.
+
+(* ---- 4. the paged DiscardForRestore ------------------------------------------------------------------------------------------ *)
+
+Lemma swf_run_batches bs : forall kv : kvs, swf kv -> swf (run_batches key_eqb kv bs).
+Proof.
+  induction bs as [|b bs IH]; intros kv W; cbn [run_batches fold_left]; [exact W|].
+  apply IH. apply (swf_apply b kv W).
+Qed.
+
+(* Started on a store related to the plain logs, a stop anywhere inside the call
+   (before the first page, between two pages, before or after the terminal batch)
+   recovers a store on which the monitor's index check [chk_entry] holds for
+   every binding: each message is there with all its index entries or not at all. *)
+Theorem discard_crash_inv (F : Type) (st : mstate F) (s : aspec) (c : N) (x : kvs) :
+  Rkv (st_kv F st) s -> kv_is_log F st ->
+  crash_states key_eqb [] (st_log F (fst (DiscardForRestore F st c))) (length (st_log F st)) x ->
+  forallb (chk_entry x s) x = true.
+Proof.
+  intros HR Hk [k [Hk1 ->]].
+  assert (W : swf (st_kv F st)) by apply (rk_wf _ _ HR).
+  assert (HI : IdxInv (st_kv F st) s) by (intros key v G; apply (chk_entry_ok _ _ _ _ HR G)).
+  destruct (discard_batches F s st c W HI) as [bs [L1 [L2 [L3 _]]]].
+  rewrite L1, app_length in Hk1.
+  assert (E : crash_state key_eqb [] (st_log F (fst (DiscardForRestore F st c))) k
+              = run_batches key_eqb (st_kv F st) (firstn (k - length (st_log F st)) bs)).
+  { unfold crash_state. rewrite L1, firstn_app, firstn_all2 by lia.
+    unfold kbatch. rewrite run_batches_app. unfold kv_is_log in Hk. rewrite <- Hk. reflexivity. }
+  rewrite E. apply IdxInv_forallb; [apply swf_run_batches; exact W|apply L3].
+Qed.
